@@ -14,7 +14,7 @@ Inductive fkind :=
 | FWalkGenuine | FWalkMissed | FWalkPriority | FGreedy
 | FSpecInsert | FSpecDelete | FSpecConstraint
 | FNoop | FRoundtrip | FInterfere | FNotRouted | FSame | FDumpOf
-| FBuiltin | FOci | FUnknownRouter.
+| FBuiltin | FOci | FOciModel | FOciName | FUnknownRouter.
 
 Definition finding := (fkind * list bytes)%type.
 
